@@ -37,3 +37,87 @@ Proof.
   split; [intros a b s; repeat split; reflexivity|]. split; [intros i s p; split; reflexivity|].
   split; [intros; reflexivity|]. split; intros; reflexivity.
 Qed.
+
+(* ---- the scanning loops of the inline-link parser: shift_whitespace, match_link_dest, match_link_title ----
+   Each `for i, c in enumerate(string[E:], start=E)` loop of the source is a Fixpoint over the suffix in Gen/GenCore.v;
+   the hand-written scanners of the model (shift_ws_aux, dest_angle, dest_plain, title_scan) compute the same thing.
+   The index arguments are those the callers pass: inside the string. *)
+From Coq Require Import Lia.
+
+Lemma shift_loop_regen s idx : forall l i, i + slen l = slen s -> g_shift_whitespace_loop1 l i s idx = shift_ws_aux l i.
+Proof.
+  induction l as [|c r IH]; intros i H; cbn [g_shift_whitespace_loop1 shift_ws_aux].
+  - unfold slen in *. cbn [length] in H. lia.
+  - destruct (is_ws c); cbn [negb]; [|reflexivity]. apply IH. unfold slen in *. cbn [length] in H. lia.
+Qed.
+
+Lemma slen_drop i s : 0 <= i <= slen s -> i + slen (drop i s) = slen s.
+Proof. intros H. unfold slen, drop in *. rewrite skipn_length. lia. Qed.
+
+Lemma shift_whitespace_regen s i : 0 <= i <= slen s -> g_shift_whitespace s i = shift_whitespace s i.
+Proof. intros H. unfold g_shift_whitespace, shift_whitespace. apply shift_loop_regen. apply slen_drop. exact H. Qed.
+
+Lemma dest_angle_regen s off : forall l i esc,
+  g_match_link_dest_loop1 l i s off esc = match dest_angle l i esc with Some j => Some (off, j + 1, substr s (off + 1) j) | None => None end.
+Proof.
+  induction l as [|c r IH]; intros i esc; cbn [g_match_link_dest_loop1 dest_angle]; [reflexivity|].
+  destruct ((c =? 92) && negb esc); [apply IH|].
+  destruct ((c =? 10) || (c =? 60) && negb esc); [reflexivity|].
+  destruct ((c =? 62) && negb esc); [reflexivity|].
+  destruct esc; apply IH.
+Qed.
+
+Lemma dest_plain_regen s off : forall l i esc count, count <> 0 ->
+  g_match_link_dest_loop2 l i s off esc count = match dest_plain l i esc count with Some j => Some (off, j, substr s off j) | None => None end.
+Proof.
+  induction l as [|c r IH]; intros i esc count Hc; cbn [g_match_link_dest_loop2 dest_plain]; [reflexivity|].
+  assert (E0 : (count =? 0) = false) by (apply Z.eqb_neq; exact Hc).
+  destruct ((c =? 92) && negb esc).
+  - rewrite E0. apply IH. exact Hc.
+  - destruct (is_ws c); [reflexivity|]. destruct esc; cbn [negb].
+    + change (g_is_control_char c) with (is_control_char c). destruct (is_control_char c); [reflexivity|]. rewrite E0. apply IH. exact Hc.
+    + destruct (c =? 40).
+      * destruct (count + 1 =? 0) eqn:E; [reflexivity|]. apply IH. apply Z.eqb_neq. exact E.
+      * destruct (c =? 41).
+        -- destruct (count - 1 =? 0) eqn:E; [reflexivity|]. apply IH. apply Z.eqb_neq. exact E.
+        -- rewrite E0. apply IH. exact Hc.
+Qed.
+
+Lemma title_scan_regen1 s off : forall l i closing esc,
+  g_match_link_title_loop1 l i s off closing esc = match title_scan l i closing esc with Some j => Some (off, j + 1, substr s (off + 1) j) | None => None end.
+Proof.
+  induction l as [|c r IH]; intros i closing esc; cbn [g_match_link_title_loop1 title_scan]; [reflexivity|].
+  destruct ((c =? 92) && negb esc); [apply IH|]. destruct ((c =? closing) && negb esc); [reflexivity|]. destruct esc; apply IH.
+Qed.
+Lemma title_scan_regen2 s off : forall l i closing esc,
+  g_match_link_title_loop2 l i s off closing esc = match title_scan l i closing esc with Some j => Some (off, j + 1, substr s (off + 1) j) | None => None end.
+Proof.
+  induction l as [|c r IH]; intros i closing esc; cbn [g_match_link_title_loop2 title_scan]; [reflexivity|].
+  destruct ((c =? 92) && negb esc); [apply IH|]. destruct ((c =? closing) && negb esc); [reflexivity|]. destruct esc; apply IH.
+Qed.
+Lemma title_scan_regen3 s off : forall l i closing esc,
+  g_match_link_title_loop3 l i s off closing esc = match title_scan l i closing esc with Some j => Some (off, j + 1, substr s (off + 1) j) | None => None end.
+Proof.
+  induction l as [|c r IH]; intros i closing esc; cbn [g_match_link_title_loop3 title_scan]; [reflexivity|].
+  destruct ((c =? 92) && negb esc); [apply IH|]. destruct ((c =? closing) && negb esc); [reflexivity|]. destruct esc; apply IH.
+Qed.
+
+Theorem match_link_dest_regen s offset : 0 <= offset + 1 <= slen s -> g_match_link_dest s offset = match_link_dest s offset.
+Proof.
+  intros H. unfold g_match_link_dest, match_link_dest. cbv zeta. rewrite (shift_whitespace_regen s (offset + 1) H).
+  destruct (shift_whitespace s (offset + 1) =? slen s); [reflexivity|].
+  destruct (char_at s (shift_whitespace s (offset + 1)) =? 60).
+  - apply dest_angle_regen.
+  - apply dest_plain_regen. discriminate.
+Qed.
+
+Theorem match_link_title_regen s offset : 0 <= offset <= slen s -> g_match_link_title s offset = match_link_title s offset.
+Proof.
+  intros H. unfold g_match_link_title, match_link_title. cbv zeta. rewrite (shift_whitespace_regen s offset H).
+  set (off := shift_whitespace s offset).
+  destruct (off =? slen s); [reflexivity|].
+  destruct (char_at s off =? 41); [reflexivity|].
+  destruct (char_at s off =? 34); [cbn [Z.eqb]; apply title_scan_regen1|].
+  destruct (char_at s off =? 39); [cbn [Z.eqb]; apply title_scan_regen2|].
+  destruct (char_at s off =? 40); [cbn [Z.eqb]; apply title_scan_regen3|reflexivity].
+Qed.
